@@ -127,6 +127,13 @@ def run_static(res, spec):
         for m in range(ref.M):
             if b != "disjunctive" and g.get_machine_node(m).machine_id != m:
                 res.violation(check, "get_machine_node-wrong", sig=sig, machine=m, **common)
+        n_job_nodes = sum(1 for t, _ in want_nodes if t == "JOB")
+        if g.num_job_nodes != n_job_nodes:
+            res.violation(check, "num_job_nodes-wrong", sig=sig, observed=g.num_job_nodes, **common)
+        for j in range(n_job_nodes):
+            nj = g.get_job_node(j)
+            if nj.job_id != j or nj.node_type.name != "JOB" or g.nodes[nj.node_id] is not nj:
+                res.violation(check, "get_job_node-wrong", sig=sig, job=j, **common)
         for o in range(ref.N):
             if g.get_operation_node(o).operation.operation_id != o:
                 res.violation(check, "get_operation_node-wrong", sig=sig, op=o, **common)
